@@ -31,6 +31,7 @@ from typing import TYPE_CHECKING, Any, NoReturn, cast
 
 from typing_extensions import assert_never
 
+from guppylang_internals import _verif
 from guppylang_internals.ast_util import (
     AstNode,
     AstVisitor,
@@ -1189,6 +1190,8 @@ def check_call(
     # Also make sure we found an instantiation for all free vars in the type we're
     # checking against
     if not set.issubset(ty.unsolved_vars, subst.keys()):
+        if _verif.ON:
+            subst = _verif.sched_dict(subst, "check_call.unsolved")
         unsolved = (subst.keys() - ty.unsolved_vars).pop()
         err = TypeMismatchError(node, ty, func_ty.output.substitute(subst))
         err.add_sub_diagnostic(
